@@ -202,7 +202,7 @@ PROPS = {
         assumptions=[],
     ),
     'C14': dict(
-        theorem_files=['C14', 'Judges'],
+        theorem_files=['C14', 'C14s', 'Judges'],
         parts=[dict(harness='C14', judge='C14', cases=dict(quick=6000, thorough=50000), judge_module='Judge.J14', judge_fn='judge_C14'),
                dict(harness='C14opt', judge='C03', cases=dict(quick=3000, thorough=30000))],
         rule='part 1: problems (CNF, 3-SAT, cardinality, PB, pigeonhole as clauses and as cardinality constraints, binary-rich CNF '
@@ -261,7 +261,7 @@ PROPS = {
         assumptions=['termination and absence of panics are observed per run (10 s limit per case), not proved'],
     ),
     'C02': dict(
-        theorem_files=['C02', 'C02b', 'C02s'],
+        theorem_files=['C02', 'C02b', 'C02s', 'C02p'],
         judge='solve_m', judge_module='Judge.JModel', judge_fn='judge_solve_case_m',
         cases=dict(quick=8000, thorough=80000),
         rule='random sets of 1..n+3 cardinality / PB constraints over 1..10 (quick) or 1..16 (thorough) variables built through '
